@@ -275,6 +275,9 @@ var c10SpecialAddrs = []string{
 
 func (g *c10Gen) newPools() {
 	n := g.r.Range(1, 8)
+	if g.r.Chance(0.4) {
+		n = g.r.Range(1, 3) // small pool: almost every owner shares addresses with the others
+	}
 	g.addrs = g.addrs[:0]
 	for i := 0; i < n; i++ {
 		if g.r.Chance(0.75) {
@@ -392,6 +395,18 @@ func c10ErrTok(err error) string {
 	return "err:" + err.Error()
 }
 
+func c10SharedAddrs(t *domainRoutingTracker) int {
+	t.mu.Lock()
+	defer t.mu.Unlock()
+	n := 0
+	for _, s := range t.ips {
+		if len(s.owners) > 1 {
+			n++
+		}
+	}
+	return n
+}
+
 func c10TrackerStr(t *domainRoutingTracker) string {
 	t.mu.Lock()
 	defer t.mu.Unlock()
@@ -429,7 +444,7 @@ func c10RunTrackerStream(t *testing.T, stats *VStats) {
 	g := &c10Gen{r: r, stats: stats}
 	histories := 400
 	if VThorough() {
-		histories = 6000
+		histories = 20000
 	}
 	for h := 0; h < histories; h++ {
 		core := c10NewCore()
@@ -443,7 +458,12 @@ func c10RunTrackerStream(t *testing.T, stats *VStats) {
 		}
 		stats.Inc("t.histories")
 		live := map[string][]string{} // owner -> last answers (only for statistics)
+		everShared := false
 		for i := 0; i < nOps; i++ {
+			if c10SharedAddrs(core.domainRouting) > 0 {
+				everShared = true
+				stats.Inc("t.ops_started_with_a_shared_address")
+			}
 			owner := "o" + strconv.Itoa(1+r.Intn(nOwners))
 			if r.Chance(0.02) {
 				owner = "~"
@@ -513,16 +533,8 @@ func c10RunTrackerStream(t *testing.T, stats *VStats) {
 			}
 		}
 		// always finish with a dump, and count overlap
-		shared := 0
-		core.domainRouting.mu.Lock()
-		for _, s := range core.domainRouting.ips {
-			if len(s.owners) > 1 {
-				shared++
-			}
-		}
-		core.domainRouting.mu.Unlock()
-		if shared > 0 {
-			stats.Inc("t.final.histories_with_shared_address")
+		if everShared {
+			stats.Inc("t.histories_with_shared_address")
 		}
 		st.Emit("tdump", c10TrackerStr(core.domainRouting)+" "+obs.kernelStr())
 	}
@@ -539,7 +551,10 @@ type c10Cache struct {
 	nextBitmap []uint32
 	order      []string // owners for which a delete callback ran during the current op
 	stale      bool
-	stats      *VStats
+	// race probe only: run once between the cache-map mutation and the tracker sync of the next put / removal
+	midAccess func()
+	midDelete func()
+	stats     *VStats
 }
 
 func c10NewCacheWorld(obs *c10Observer, stats *VStats, optEnabled bool, optTtl, maxSize int) *c10Cache {
@@ -557,6 +572,10 @@ func c10NewCacheWorld(obs *c10Observer, stats *VStats, optEnabled bool, optTtl, 
 	opt.MaxCacheSize = maxSize
 	if access := opt.CacheAccessCallback; access != nil {
 		opt.CacheAccessCallback = func(c *DnsCache) error {
+			if f := w.midAccess; f != nil {
+				w.midAccess = nil
+				f()
+			}
 			obs.begin()
 			err := access(c)
 			owner := ""
@@ -569,6 +588,10 @@ func c10NewCacheWorld(obs *c10Observer, stats *VStats, optEnabled bool, optTtl, 
 	}
 	if del := opt.CacheDeleteCallback; del != nil {
 		opt.CacheDeleteCallback = func(key string, c *DnsCache) error {
+			if f := w.midDelete; f != nil {
+				w.midDelete = nil
+				f()
+			}
 			obs.begin()
 			err := del(key, c)
 			owner := ""
@@ -671,6 +694,9 @@ func c10B(b bool) string {
 }
 
 func (w *c10Cache) summary() string {
+	if c10SharedAddrs(w.core.domainRouting) > 0 {
+		w.stats.Inc("c.ops_ending_with_a_shared_address")
+	}
 	// what the evictor goroutine would do with anything queued for the remove callback (nothing is ever
 	// queued while dnsControllerOption leaves CacheRemoveCallback unset)
 	for len(w.ctrl.evictorQ) > 0 {
@@ -1024,7 +1050,6 @@ func c10RunCacheHistory(st *VStream, r *VRand, obs *c10Observer, stats *VStats, 
 // real functions; BuildKernspace in between needs real BPF objects and is skipped.
 func c10RollbackProbe(obs *c10Observer, stats *VStats) string {
 	w := c10NewCacheWorld(obs, stats, false, 0, 0)
-	h := &c10Hist{w: w, st: nil, r: nil, stats: stats, fixed: map[string]int{}}
 	bm := c10ParseBits("3.40", 32)
 	put := func(k c10Key, ans ...string) {
 		var rrs []dnsmessage.RR
@@ -1036,7 +1061,6 @@ func c10RollbackProbe(obs *c10Observer, stats *VStats) string {
 			panic(err)
 		}
 	}
-	_ = h
 	put(c10Key{"a.com.", dnsmessage.TypeA, ""}, "4:01020304", "4:0a000001")
 	put(c10Key{"b.com.", dnsmessage.TypeA, ""}, "4:01020304")
 	before, _ := w.mirror()
@@ -1057,6 +1081,39 @@ func c10RollbackProbe(obs *c10Observer, stats *VStats) string {
 		c10B(before), nBefore, n, queued, c10B(after), len(obs.shadow), calls)
 }
 
+// Probe (a concurrency schedule, outside the sequential histories of the property): the cache map mutation
+// and the tracker sync of one operation are two steps without a common lock. Another goroutine's complete
+// operation on the same key is run between them (all real code, a legal schedule).
+func c10RaceProbe(obs *c10Observer, stats *VStats) string {
+	k := c10Key{"a.com.", dnsmessage.TypeA, ""}
+	bm := c10ParseBits("7", 32)
+	mk := func() (*c10Cache, func(ans string)) {
+		w := c10NewCacheWorld(obs, stats, false, 0, 0)
+		return w, func(ans string) {
+			w.nextBitmap = bm
+			if err := w.ctrl.UpdateDnsCacheTtlWithKey(k.key(), k.name, k.qtype, []dnsmessage.RR{c10MakeAns(ans, k.name)}, nil, nil, 300); err != nil {
+				panic(err)
+			}
+		}
+	}
+	// A: removal completes between a replacement's Store and its sync -> table keeps the removed entry's address
+	w, put := mk()
+	put("4:01020304")
+	w.midAccess = func() { w.ctrl.RemoveDnsRespCache(k.key()) }
+	put("4:0a000001")
+	obs.takeCalls()
+	okA, nA := w.mirror()
+	resA := fmt.Sprintf("A_mirror=%s A_cache=%d A_table=%d", c10B(okA), nA, len(obs.shadow))
+	// B: a new answer is stored and synced between a removal's delete and its sync -> table lacks a cached address
+	w, put = mk()
+	put("4:01020304")
+	w.midDelete = func() { put("4:0a000001") }
+	w.ctrl.RemoveDnsRespCache(k.key())
+	obs.takeCalls()
+	okB, nB := w.mirror()
+	return fmt.Sprintf("race %s B_mirror=%s B_cache=%d B_table=%d", resA, c10B(okB), nB, len(obs.shadow))
+}
+
 func TestVerifC10(t *testing.T) {
 	stats := NewVStats()
 	c10RunTrackerStream(t, stats)
@@ -1069,7 +1126,7 @@ func TestVerifC10(t *testing.T) {
 	g := &c10Gen{r: r, stats: stats}
 	histories := 300
 	if VThorough() {
-		histories = 5000
+		histories = 15000
 	}
 	for h := 0; h < histories; h++ {
 		scripted := h%4 == 3
@@ -1080,6 +1137,10 @@ func TestVerifC10(t *testing.T) {
 	synctest.Test(t, func(t *testing.T) {
 		line := VRecover(func() string { return c10RollbackProbe(obs, stats) })
 		_ = os.WriteFile(filepath.Join(VOutDir(), "c10.rollback.txt"), []byte(line+"\n"), 0o644)
+	})
+	synctest.Test(t, func(t *testing.T) {
+		line := VRecover(func() string { return c10RaceProbe(obs, stats) })
+		_ = os.WriteFile(filepath.Join(VOutDir(), "c10.race.txt"), []byte(line+"\n"), 0o644)
 	})
 	stats.Write("c10")
 }
